@@ -37,7 +37,9 @@ import (
 	"github.com/ontio/ontology/core/types"
 	cutils "github.com/ontio/ontology/core/utils"
 	"github.com/ontio/ontology/smartcontract/service/native/ont"
+	"github.com/ontio/ontology/smartcontract/service/native/global_params"
 	nutils "github.com/ontio/ontology/smartcontract/service/native/utils"
+	sneovm "github.com/ontio/ontology/smartcontract/service/neovm"
 	"github.com/ontio/ontology/verifshim/vh"
 	"github.com/ontio/ontology/verifshim/vkeys"
 	vmneo "github.com/ontio/ontology/vm/neovm"
@@ -489,6 +491,21 @@ func c02newEnv() *c02env {
 	add(e.evm("eip155-transfer-n1", 1, &to, 2000000000, nil), 2)
 	add(e.evm("eip155-create-n0", 0, nil, 0, []byte{0x60, 0x00, 0x60, 0x00, 0xf3}), 2)
 	add(e.evm("eip155-calldata-n0", 0, &to, 0, []byte{1, 2, 3, 4}), 0)
+
+	// operator transactions (bookkeeper = admin/operator of the global-params contract on a solo chain): raise the
+	// price of the Ontology.Native.Invoke service from 1000 to 100000 gas and make it effective (createSnapshot);
+	// blocks after that are charged by a table that differs from the compile-time defaults
+	{
+		op := func(id string, mt *types.MutableTransaction) {
+			mt.Payer = vAcct(0).Address
+			add(e.finish(&c02tx{spec: c02spec{Kind: id, Shape: "p256-compressed"}, id: id, shape: "operator", raw: append([]byte{}, vSignTx(mt, vAcct(0)).Raw...)}), 0)
+		}
+		op("param-set-native-invoke-price", vNativeTx(nutils.ParamContractAddress, global_params.SET_GLOBAL_PARAM_NAME,
+			[]interface{}{global_params.Params{{Key: sneovm.NATIVE_INVOKE_NAME, Value: "100000"}}}, 0, 10000000, 90))
+		mt := cutils.BuildNativeTransaction(nutils.ParamContractAddress, global_params.CREATE_SNAPSHOT_NAME, []byte{0})
+		mt.Nonce, mt.GasLimit = 91, 10000000
+		op("param-create-snapshot", mt)
+	}
 
 	// setup block (all by the bookkeeper, canonical script, gas price 0)
 	bk := vAcct(0)
@@ -1038,6 +1055,15 @@ func TestVerif_C02(t *testing.T) {
 			}
 		}
 	}
+	// a committed block that changes the gas table in force (global params), then every one-tx block
+	{
+		ps, pc := e.byID["param-set-native-invoke-price"], e.byID["param-create-snapshot"]
+		r.Need(ps != nil && ps.vobj != nil && pc != nil && pc.vobj != nil, "operator transactions rejected by the validator")
+		works = append(works, work{[][]*c02tx{{ps, pc}}, alphaSingles})
+		if r.Thorough() {
+			works = append(works, work{[][]*c02tx{{ps}, {pc}}, alphaSingles})
+		}
+	}
 	r.Bound(fmt.Sprintf("tx alphabet %d (validator accepts %d), reduced alphabet %d; on the setup block: %d one-tx blocks + %d ordered two-tx blocks; %d committed prefixes of depth<=%d each followed by its candidate next blocks; V restarted after every prefix",
 		len(e.all), len(accepted), len(alpha), nSingles, len(pairs), len(works), r.Pick(1, 2)))
 
@@ -1065,6 +1091,12 @@ func TestVerif_C02(t *testing.T) {
 		tr.run(w.prefix, w.lasts, true)
 		if len(tr.hist) == len(w.prefix) {
 			r.Class(fmt.Sprintf("prefix:committed-depth-%d", len(w.prefix)))
+		}
+		if w.prefix[0][0].id == "param-set-native-invoke-price" && !tr.dead {
+			// non-vacuity: the blocks after the prefix really ran under the raised price
+			v, _ := sneovm.GAS_TABLE.Load(sneovm.NATIVE_INVOKE_NAME)
+			r.Need(v != nil && v.(uint64) == 100000, "global parameter change did not take effect (native invoke price %v)", v)
+			r.Class("prefix:gas-table-changed-on-chain")
 		}
 		tr.close()
 	}
